@@ -468,7 +468,7 @@ func runC18(c *fw.Check) {
 	if !TreegenAvailable {
 		fw.Fatalf("C18 needs the treegen table (build through ./check)")
 	}
-	c.Rule = "every typed constant of every integer-based type with a String method declared in ir/enum (and types.FloatKind), LISTED FROM THE CURRENT SOURCE by go/types at check time: FromString(String(v))==v, keywords pairwise distinct per type, and each value printed inside a minimal module built through the API, re-parsed and read back (one module template per family), AND on every further entity that has a field of the enum's type (found by reflection: linkage/visibility/preemption/DLL storage/unnamed_addr/TLS model on function declarations, definitions, aliases and ifuncs; calling convention on declarations, definitions, call, invoke, callbr; atomic orderings on load, store, cmpxchg success and failure, atomicrmw; fast-math flags on all FP instructions, fcmp, select, call; overflow flags on add/sub/mul/shl; tail kinds on call), values LLVM does not admit at a position being skipped; flag sets: all subsets of AllocKind members, all subsets of DISPFlag members, all DIFlag subsets of <=3 (thorough <=4) members and their complements, printed+parsed and compared as values. distinct = distinct (type,value) and (type,set) cases."
+	c.Rule = "every typed constant of every integer-based type with a String method declared in ir/enum (and types.FloatKind), LISTED FROM THE CURRENT SOURCE by go/types at check time: FromString(String(v))==v, keywords pairwise distinct per type, and each value printed inside a minimal module built through the API, re-parsed and read back (one module template per family), AND on every further entity that has a field of the enum's type (found by reflection: linkage/visibility/preemption/DLL storage/unnamed_addr/TLS model on function declarations, definitions, aliases and ifuncs; calling convention on declarations, definitions, call, invoke, callbr; atomic orderings on load, store, cmpxchg success and failure, atomicrmw; fast-math flags on all FP instructions, fcmp, select, call; overflow flags on add/sub/mul/shl; tail kinds on call), values LLVM does not admit at a position being skipped; on globals, declarations, definitions, aliases and ifuncs also every PAIR of enum fields with every pair of values (a keyword derived from the others shows only in combination), and every pair of enum slots of one struct of the all-constructs module (quick: 6 values per enum); flag sets: all subsets of AllocKind members, all subsets of DISPFlag members, all DIFlag subsets of <=3 (thorough <=4) members and their complements, printed+parsed and compared as values. distinct = distinct (type,value) and (type,set) cases."
 	nTypes, nConsts := 0, 0
 	carriers := c18carriers()
 	usedCarriers := map[string]bool{}
@@ -541,6 +541,10 @@ func runC18(c *fw.Check) {
 		}
 	}
 	fw.ParallelFor(len(walkJobs), func(i int) { c18runWalkJob(c, walkJobs[i]) })
+	c18pairs(c)
+	pairJobs := c18walkPairJobs(map[bool]int{true: 6, false: 0}[c.Quick()])
+	fw.ParallelFor(len(pairJobs), func(i int) { c18runWalkPairJob(c, pairJobs[i]) })
+	c.Extra["enum_slot_pairs_in_one_struct"] = len(pairJobs)
 	var wk []string
 	for en, ks := range slotTable {
 		for k := range ks {
